@@ -33,3 +33,23 @@ def big_literal(ch, tag="big"):
     write path of BufferedWriter)."""
     n = 1200 + ch.draw(400, tag)
     return "!" + str(n)
+
+
+_EXACT = {}
+
+
+def exact_size_literal(size):
+    """A Klong string literal whose pickle (klongpy.db.helpers.serialize_obj) is exactly `size` bytes long -
+    boundary values for buffer sizes and chunked writers (8 KiB, multiples of 64 KiB)."""
+    if size not in _EXACT:
+        from klongpy.db.helpers import serialize_obj
+        n = size - 30
+        while len(serialize_obj("x" * n)) < size:
+            n += 1
+        if len(serialize_obj("x" * n)) != size:
+            raise ValueError(f"cannot hit pickle size {size} exactly")
+        _EXACT[size] = '"' + "x" * n + '"'
+    return _EXACT[size]
+
+
+BOUNDARY_SIZES = [8191, 8192, 8193, 65535, 65536, 65537, 131072]
